@@ -24,23 +24,26 @@ gemm_to_matmul_add_rule  (_gemm_to_matmul_add.py)
 matmul_add_to_gemm_rule, transpose_a_/transpose_b_/transpose_ab_matmul_add_to_gemm_rule  (_matmul_add_to_gemm.py)
   Add(MatMul([Transpose](a), [Transpose](b)), c)  (either operand order of Add).
   Drawn: dtype float32/float64/float16/int32/int64; a, b rank 2 (instance), rank 1 / rank 3 (near-miss); dims 1-3;
-  Transpose with perm=[1,0], without perm, perm=[0,1] (wrong dims then re-drawn so the model stays valid), rank-3
-  perm; c of rank 0-3: [], [1], [N], [1,N], [M,N], [M,1], [1,1], [1,M,N], [2,M,N], [1,1,N], [1,1,1], and shapes
+  Transpose with perm=[1,0], without perm, perm=[0,1] (identity; operand shapes chosen so the MatMul stays valid),
+  rank-3 perm; c of rank 0-3: [], [1], [N], [1,N], [M,N], [M,1], [1,1], [1,M,N], [2,M,N], [1,1,N], [1,1,1], and shapes
   that broadcast the MatMul result *up* ([3,N] when M==1, [M,3] when N==1); a, b, c as static input / symbolic
   input / unknown-dim input / initializer / Constant / overridable initializer / intermediate; extra consumers of the
-  MatMul / Transpose outputs.
+  MatMul / Transpose outputs.  Each of the four rules gets the same host with its own Transpose form favoured (85 %).
   NOT enumerated: bfloat16/uint, rank > 3 operands, zero-size dims.
 
 fuse_batchnorm_into_gemm_rule  (_fuse_batchnorm.py, Gemm only)
   BatchNormalization(Gemm(x, w, [c]), scale, B, mean, var).
   Drawn: dtype float32/float64 (float16 rarely); M,K,N in 1-3; Gemm alpha/beta absent or 0.5/2.0/-1.0/0.0/1.0,
   transA/transB absent/0/1; C absent / trailing-empty / [], [1], [N], [1,N], [M,N], [M,1]; epsilon absent / 1e-5 / 1e-3 / 0.1
-  / 1.0; momentum; training_mode absent/0/1 (opset >= 14); opset 13..23 and 9/11/12 (BN-9, Gemm-9/11); var
-  positive / tiny / zero; each of w, c, scale, B, mean, var as initializer (instance) or Constant node /
+  / 1.0; momentum; training_mode absent/0/1 (opset >= 14; with 1 the node has its 3 mandatory outputs, the two
+  running statistics left unused); opset 14..23 and rarely (5 %) 9/11/12/13 (onnx.reference evaluates
+  BatchNormalization-9 with batch statistics, so the runtimes disagree on the SOURCE there and the oracle is silent);
+  var positive / tiny / zero; each of w, c, scale, B, mean, var as initializer (instance) or Constant node /
   overridable initializer-input / plain graph input (near-misses); w or c shared with another node; BN params
   shared between themselves (c is mean, scale is var); extra consumer of the Gemm output; x as input / symbolic input /
   intermediate; mean/var of another float type at opset >= 15 (T2).
-  NOT enumerated: BN with >1 outputs, opset < 9 (spatial attr), bfloat16, negative variance (NaN on purpose).
+  NOT enumerated: consumed running_mean/running_var outputs, opset < 9 (spatial attr), bfloat16, negative variance
+  (NaN on purpose).
 
 remove_optional_bias_from_gemm_rule  (_remove_optional_bias.py, Gemm only)
   Gemm(x, w, b).
@@ -53,12 +56,14 @@ remove_optional_bias_from_gemm_rule  (_remove_optional_bias.py, Gemm only)
 fuse_hardswish_rules  (_fuse_hardswish.py)
   Div(Mul(Clip(Add(x,3),0,6), x), 6); Div(Clip(Add(x,3),0,6), 6) [optionally followed by Mul(.,x)];
   Mul(HardSigmoid(x, alpha, beta), x).
-  Drawn: opset 13 (HardSwish absent) vs >= 14 vs 11/12; dtype float32/float64/float16/int32/int64; x rank 0-3;
-  every operand order of Add / Mul (and the non-commutative Div reversed as near-miss); the Mul with a different
-  second operand (near-miss); Clip with missing max / missing min; constants exact, relative offset 5e-5 / 9e-5
-  (inside rtol) / 2e-4 (outside) / other, clip_min 0 / -0.0 / 1e-9 / -1e-6; constant shapes [], [1], [1,1] and
-  rank(x)+1 ones; constants as Constant / initializer / overridable initializer / non-constant; HardSigmoid alpha
-  absent / float32(1/6) / 0.1666667 / 0.16666 / 0.1667 / 0.2, beta absent / 0.5 / 0.50001 / 0.6; extra consumers.
+  Drawn: opset 13 (HardSwish absent) vs >= 14 vs 11/12; dtype float32/float64/float16 and (opset >= 12, Clip forms
+  only) int32/int64; x rank 0-3, graph input or Identity(input); every operand order of Add / Mul; ONE structural
+  near-miss at a time (Clip without max / without min, Div reversed, Mul by a different operand); the four constants
+  (bias 3, min 0, max 6, divisor 6) are exact scalar true constants in ~60 % of the hosts, otherwise one or two of
+  them deviate in ONE property: value (relative offset 5e-5 / 9e-5 = inside rtol, 2e-4 = outside, other; for min:
+  -0.0 / 1e-9 / -1e-6 / other), singleton shape [1], [1,1], rank(x)+1 ones (Clip bounds only [1]: larger ranks make
+  the host invalid), provenance overridable initializer / graph input; HardSigmoid alpha absent / float32(1/6) /
+  0.1666667 / python 1/6 / 0.16666 / 0.1667 / 0.2, beta absent / 0.5 / 0.50001 / 0.6; extra consumers.
   NOT enumerated: bfloat16, Clip attribute form (opset < 11), x of rank > 3.
 """
 from __future__ import annotations
@@ -101,7 +106,11 @@ def _fact(size, max_rank=4, min_rank=1):
 
 def _mm_shape(a, b):
     """numpy/ONNX MatMul output shape or None."""
-    a, b = tuple(a), tuple(b)
+    return _mm_shape_c(tuple(int(d) for d in a), tuple(int(d) for d in b))
+
+
+@lru_cache(maxsize=None)
+def _mm_shape_c(a, b):
     if not a or not b:
         return None
     a2 = (1,) + a if len(a) == 1 else a
@@ -138,7 +147,7 @@ def _style(g, dt):
     return g.pick(["smallint", "smallint", "mixed", "unit"])
 
 
-def _operand(g, dt, shape, kinds=("input", "input", "input", "input", "input", "input", "const", "const", "mid", "sym", "unk"), style=None):
+def _operand(g, dt, shape, kinds=("input",) * 8 + ("const", "const", "mid", "sym", "unk"), style=None):
     """A tensor operand of the given concrete shape in one of several provenance kinds.  Returns (Val, kind)."""
     shape = tuple(int(d) for d in shape)
     kind = g.pick(kinds)
@@ -260,11 +269,11 @@ def _pick_reshapes(g, a, b, two):
     rbs = list(_fact(_prod(b))) if two else [tuple(b)]
     rng = np.random.default_rng(g.seed())
     rng.shuffle(ras)
-    if g.chance(3) and tuple(a) in ras:  # identity reshape of a first
-        ras.remove(tuple(a))
-        ras.insert(0, tuple(a))
+    ras = ras[:40]
+    if tuple(a) not in ras:  # the identity reshape of a is always among the candidates
+        ras.append(tuple(a))
     good, anyp = [], []
-    for ra in ras[:14]:
+    for ra in ras:
         for rb in rbs:
             s = _mm_shape(ra, rb)
             if s is None:
@@ -289,7 +298,7 @@ def _reshape_matmul(g, two, view_one=False):
     tag = "rmr2" if two else "rmr1"
     dt = g.pick([F32, F32, F32, F64, F16, I32, I64])
     g.features.add(f"planted:{tag}")
-    if g.chance(8):
+    if g.chance(17, 20):
         a, b = _compat_pair(g)
         g.features.add(f"planted:{tag}:compat")
     else:
@@ -370,12 +379,12 @@ def host_gemm_to_matmul_add(g):
     dt = g.pick([F32, F32, F32, F64, F16, I32, I64])
     a = _free_shape(g)
     size = _prod(a)
-    attrs, ta, tb = _gemm_attrs(g, [1.0] * 14 + [None, 1.0 + 1e-7, 0.5], [1.0] * 14 + [None, 0.5, 2.0],
+    attrs, ta, tb = _gemm_attrs(g, [1.0] * 20 + [None, 1.0 + 1e-7, 0.5], [1.0] * 20 + [None, 0.5, 2.0],
                                 trans_opts=(None, None, None, 0, 0, 1))
     nat = (_prod(a[:-1]), a[-1])
     if ta:
         nat = (nat[1], nat[0])
-    ra = nat if g.chance(7) else g.pick(list(_fact(size, 2, 2)))
+    ra = nat if g.chance(8) else g.pick(list(_fact(size, 2, 2)))
     m, k = (ra[1], ra[0]) if ta else ra
     n = _dim(g)
     if tb and g.chance(5):
@@ -390,7 +399,7 @@ def host_gemm_to_matmul_add(g):
     if rav is None:
         return None
     ins = [rav, bv]
-    if g.chance(9):
+    if not _rare(g):
         cs = g.pick(_c_shapes(m, n))
         cv, _ = _operand(g, dt, cs, kinds=("input", "const", "const", "const", "sym"))
         ins.append(cv)
@@ -437,13 +446,13 @@ def _matmul_add(g, want_ta, want_tb):
     dt = g.pick([F32, F32, F32, F64, F16, I32, I64])
 
     def tmode(want):
-        if g.chance(8):
+        if g.chance(17, 20):
             return "perm10" if want else "none"
         return g.pick(["none", "perm10", "noperm", "perm01"])
 
     ma, mb = tmode(want_ta), tmode(want_tb)
     m, k, n = _dim(g), _dim(g), _dim(g)
-    ranks = g.pick([(2, 2)] * 12 + [(3, 2), (2, 3), (3, 3), (1, 2), (2, 1)])
+    ranks = g.pick([(2, 2)] * 16 + [(3, 2), (2, 3), (3, 3), (1, 2), (2, 1)])
     # shapes of the MatMul operands (after the optional transposes)
     bd = _dim(g)
     pa = {1: (k,), 2: (m, k), 3: (bd, m, k)}[ranks[0]]
@@ -537,8 +546,12 @@ def host_bn_gemm(g):
     tag = "bn_gemm"
     g.features.add(f"planted:{tag}")
     old = False
-    if g.chance(1):
-        old = g.set_opset(g.pick([9, 11, 12]))
+    if _rare(g):
+        old = g.set_opset(g.pick([9, 11, 12, 13]))
+    elif g.opset < 14:
+        # onnx.reference evaluates BatchNormalization-9 (opset 9..13) with batch statistics whenever momentum has its
+        # default, so the two runtimes disagree on the SOURCE there; keep those opsets rare.
+        g.set_opset(g.pick([14, 15, 17, 18, 19, 21, 22]))
     dt = g.pick([F32, F32, F32, F32, F64, F64, F16])
     m, k, n = _dim(g), _dim(g), _dim(g)
     attrs, ta, tb = _gemm_attrs(g, [None] * 6 + [1.0, 0.5, 2.0, -1.0], [None] * 6 + [1.0, 0.5, 2.0, 0.0, -1.0])
@@ -693,22 +706,34 @@ def host_gemm_zero_bias(g):
 
 
 # ------------------------------------------------------------------------------------------------ fuse_hardswish_rules
-def _hs_const(g, x, lit, name, tag):
+def _hs_const(g, x, lit, name, tag, deviate):
+    """One of the four constants.  deviate=False: exact scalar true constant.  deviate=True: ONE property is off
+    (value variant, non-scalar singleton shape, overridable / non-constant provenance)."""
     dt = x.dtype
-    if dt.kind == "f":
-        if lit == 0:
-            variant = g.pick(["exact"] * 7 + ["negzero", "abs_1e-9", "abs_-1e-6", "other"])
-            val = {"exact": 0.0, "negzero": -0.0, "abs_1e-9": 1e-9, "abs_-1e-6": -1e-6, "other": g.pick([1.0, -1.0, 0.5])}[variant]
+    val, shape, how, variant = lit, (), g.pick(["node", "init"]), "exact"
+    if deviate:
+        what = g.pick(["value", "value", "value", "shape", "shape", "how"])
+        if what == "value":
+            if dt.kind == "f":
+                if lit == 0:
+                    variant = g.pick(["negzero", "abs_1e-9", "abs_-1e-6", "other"])
+                    val = {"negzero": -0.0, "abs_1e-9": 1e-9, "abs_-1e-6": -1e-6, "other": g.pick([1.0, -1.0, 0.5])}[variant]
+                else:
+                    variant = g.pick(["rel_5e-5", "rel_5e-5", "rel_9e-5", "rel_2e-4", "other"])
+                    val = {"rel_5e-5": lit * (1 + g.pick([5e-5, -5e-5])), "rel_9e-5": lit * (1 + g.pick([9e-5, -9e-5])),
+                           "rel_2e-4": lit * (1 + g.pick([2e-4, -2e-4])), "other": lit + g.pick([1, -1, 0.5])}[variant]
+            else:
+                variant = "other"
+                val = lit + g.pick([1, -1, 2])
+        elif what == "shape":
+            if name in ("min", "max"):
+                # Clip bounds: only [1] keeps the host valid (and only when x is not a scalar)
+                shape = (1,) if x.rank >= 1 else ()
+            else:
+                shape = g.pick([(1,), (1, 1), (1,) * (x.rank + 1)])
         else:
-            variant = g.pick(["exact"] * 9 + ["rel_5e-5", "rel_9e-5", "rel_2e-4", "other"])
-            val = {"exact": lit, "rel_5e-5": lit * (1 + g.pick([5e-5, -5e-5])), "rel_9e-5": lit * (1 + g.pick([9e-5, -9e-5])),
-                   "rel_2e-4": lit * (1 + g.pick([2e-4, -2e-4])), "other": lit + g.pick([1, -1, 0.5])}[variant]
-    else:
-        variant = g.pick(["exact"] * 8 + ["other"])
-        val = lit if variant == "exact" else lit + g.pick([1, -1, 2])
-    shape = g.pick([(), (), (), (), (1,), (1, 1), (1,) * (x.rank + 1)])
+            how = g.pick(["ovinit", "nonconst"])
     arr = np.full(shape, val, dtype=dt)
-    how = g.pick(["node", "node", "init", "init", "ovinit", "nonconst"])
     if how == "nonconst":
         v = g.add_input(dt, shape, style="smallint")
         v.arr[...] = arr
@@ -758,8 +783,8 @@ def host_hardswish(g):
 
     if form == "hsig_mul":
         attrs = {}
-        al = g.pick(["f32_1/6", "f32_1/6", "f32_1/6", "0.1666667", "py_1/6", "0.16666", "0.1667", "absent", "0.2"])
-        be = g.pick(["0.5", "0.5", "0.5", "0.5", "absent", "0.50001", "0.6"])
+        al = g.pick(["f32_1/6", "f32_1/6", "f32_1/6", "0.1666667", "0.1666667", "py_1/6", "py_1/6", "0.16666", "0.1667", "absent", "0.2"])
+        be = g.pick(["0.5"] * 8 + ["absent", "0.50001", "0.6"])
         if al != "absent":
             attrs["alpha"] = {"f32_1/6": float(np.float32(1 / 6)), "0.1666667": 0.1666667, "py_1/6": 1 / 6, "0.16666": 0.16666, "0.1667": 0.1667, "0.2": 0.2}[al]
         if be != "absent":
@@ -770,7 +795,7 @@ def host_hardswish(g):
         if not hs:
             return None
         other = x
-        if g.chance(1):
+        if _rare(g):
             other = g.add_input(dt, shape, style="smallint")
             g.features.add(f"planted:{tag}:mul_other_operand")
         y = binop("Mul", hs[0], other)
@@ -782,17 +807,27 @@ def host_hardswish(g):
             g.features.add(f"planted:{tag}:extra_consumer")
         return outs
 
-    bias = _hs_const(g, x, 3, "bias", tag)
+    # which of the four constants deviate from the exact scalar constant (mostly none, else one or two)
+    ndev = g.pick([0, 0, 0, 0, 0, 0, 1, 1, 1, 2])
+    names = ["bias", "min", "max", "div"]
+    dev = set()
+    for _ in range(ndev):
+        dev.add(g.pick(names))
+    g.features.add(f"planted:{tag}:consts_{'exact' if not dev else 'deviating'}")
+    structural = g.pick(["none"] * 12 + ["no_max", "no_min", "div_reversed", "mul_other"])
+    if structural == "div_reversed" and dt.kind != "f":
+        structural = "none"
+    bias = _hs_const(g, x, 3, "bias", tag, "bias" in dev)
     a = binop("Add", x, bias)
     if a is None:
         return None
-    clipform = g.pick(["both"] * 8 + ["no_max", "no_min"])
+    clipform = structural if structural in ("no_max", "no_min") else "both"
     if clipform == "both":
-        cins = [a, _hs_const(g, x, 0, "min", tag), _hs_const(g, x, 6, "max", tag)]
+        cins = [a, _hs_const(g, x, 0, "min", tag, "min" in dev), _hs_const(g, x, 6, "max", tag, "max" in dev)]
     elif clipform == "no_max":
-        cins = [a, _hs_const(g, x, 0, "min", tag)]
+        cins = [a, _hs_const(g, x, 0, "min", tag, "min" in dev)]
     else:
-        cins = [a, None, _hs_const(g, x, 6, "max", tag)]
+        cins = [a, None, _hs_const(g, x, 6, "max", tag, "max" in dev)]
     if clipform != "both":
         g.features.add(f"planted:{tag}:clip_{clipform}")
     # Clip min/max must be scalars (rank 0) per spec; keep [1]-shaped ones only where the runtimes accept them (emit checks ref)
@@ -803,17 +838,15 @@ def host_hardswish(g):
     cur = c
     if form == "swish":
         other = x
-        if g.chance(1):
+        if structural == "mul_other":
             other = g.add_input(dt, shape, style="smallint")
             g.features.add(f"planted:{tag}:mul_other_operand")
         cur = binop("Mul", cur, other)
         if cur is None:
             return None
-    div = _hs_const(g, x, 6, "div", tag)
-    if g.chance(1):
+    div = _hs_const(g, x, 6, "div", tag, "div" in dev)
+    if structural == "div_reversed":
         g.features.add(f"planted:{tag}:div_reversed")
-        if dt.kind != "f":
-            return None
         d = g.emit("Div", [div, cur])
     else:
         d = g.emit("Div", [cur, div])
